@@ -43,9 +43,22 @@ def coords_str(cs):
     return ';'.join(cstr(c) for c in cs) if cs else '_'
 
 
-def op_str(op):
+def op_str(op, sort=False):
     items = list(op.items())
+    if sort:
+        items.sort()
     return ';'.join(f'{cstr(k)}:{v}' for k, v in items) if items else '-'
+
+
+def sort_op_string(op, out):
+    """dict equality is order-free: compare from_bsf results as sorted entry lists"""
+    if not op.startswith('frombsf') or out in ('-', 'bad-op'):
+        return out
+
+    def key(t):
+        c, p = t.split(':')
+        return (tuple(int(x) for x in c.split('.')), p)
+    return ';'.join(sorted(out.split(';'), key=key))
 
 
 def ops_str(ops):
@@ -87,7 +100,7 @@ def make_user_code(rng, dim=None):
     m = int(rng.integers(1, 7))
     pts = set()
     while len(pts) < n + m:
-        pts.add(tuple(int(x) for x in rng.integers(-3, 6, dim)))
+        pts.add(tuple(int(x) for x in rng.integers(-3, 6 if dim > 1 else 40, dim)))
     pts = list(pts)
     rng.shuffle(pts)
     qubits, stabs = pts[:n], pts[n:]
@@ -133,6 +146,15 @@ def make_user_code(rng, dim=None):
                             'ops': [[list(k), v] for s in stabs for k, v in ops[s].items()]}
 
 
+def shuffled_csr(v, rng):
+    """1 x len(v) csr row holding v with its column indices in random order"""
+    from scipy.sparse import csr_matrix
+    cols = [i for i, x in enumerate(v) if x]
+    rng.shuffle(cols)
+    return csr_matrix((np.ones(len(cols), dtype='uint8'), np.array(cols, dtype=int), np.array([0, len(cols)])),
+                      shape=(1, len(v)))
+
+
 def add_code_streams(s_asm: Stream, s_conv: Stream, s_css: Stream, label, code, rng, tag, n_rows=6):
     qs = coords_str(code.qubit_coordinates)
     stab_ops = [code.get_stabilizer(loc) for loc in code.stabilizer_coordinates]
@@ -148,10 +170,10 @@ def add_code_streams(s_asm: Stream, s_conv: Stream, s_css: Stream, label, code, 
         s_conv.add(f'tobsf {qs} {op_str(op)}', guarded(lambda: vec(code.to_bsf(op))),
                    {'code': label, 'stabilizer': i, 'what': 'to_bsf'}, tag=tag)
         row = Hd[i]
-        s_conv.add(f'frombsf {qs} {vec(row)}', guarded(lambda: op_str(code.from_bsf(np.array(row)))),
+        s_conv.add(f'frombsf {qs} {vec(row)}', guarded(lambda: op_str(code.from_bsf(np.array(row)), sort=True)),
                    {'code': label, 'stabilizer': i, 'what': 'from_bsf dense'}, tag=tag)
         s_conv.add(f'frombsf {qs} {vec(row)}',
-                   guarded(lambda: op_str(code.from_bsf(code.stabilizer_matrix[i]))),
+                   guarded(lambda: op_str(code.from_bsf(code.stabilizer_matrix[i]), sort=True)),
                    {'code': label, 'stabilizer': i, 'what': 'from_bsf sparse row'}, tag=tag)
     for nm, getter, mat in (('X', code.get_logicals_x, 'logicals_x'), ('Z', code.get_logicals_z, 'logicals_z')):
         lops = getter()
@@ -161,8 +183,11 @@ def add_code_streams(s_asm: Stream, s_conv: Stream, s_css: Stream, label, code, 
     # random error vectors through from_bsf
     for _ in range(2):
         v = [int(x) for x in rng.integers(0, 2, 2 * code.n)]
-        s_conv.add(f'frombsf {qs} {vec(v)}', guarded(lambda: op_str(code.from_bsf(np.array(v)))),
+        s_conv.add(f'frombsf {qs} {vec(v)}', guarded(lambda: op_str(code.from_bsf(np.array(v)), sort=True)),
                    {'code': label, 'what': 'from_bsf random', 'bsf': v}, tag=tag)
+        s_conv.add(f'frombsf {qs} {vec(v)}',
+                   guarded(lambda: op_str(code.from_bsf(shuffled_csr(v, rng)), sort=True)),
+                   {'code': label, 'what': 'from_bsf sparse row with unsorted indices', 'bsf': v}, tag=tag)
     # CSS structure
     if m:
         Hs = stack(Hd)
@@ -199,7 +224,7 @@ def add_code_streams(s_asm: Stream, s_conv: Stream, s_css: Stream, label, code, 
 
 def correspondence(ctx):
     rng = ctx.np_rng(22)
-    s_asm, s_conv, s_css = Stream('assembly-H'), Stream('to_bsf-from_bsf'), Stream('css-blocks-syndrome')
+    s_asm, s_conv, s_css = Stream('assembly-H'), Stream('to_bsf-from_bsf', post=sort_op_string), Stream('css-blocks-syndrome')
     for label, cls, size, deform in code_cases(ctx):
         try:
             code = K.build(cls, size, deform)
@@ -207,7 +232,7 @@ def correspondence(ctx):
             s_asm.add('bad-op-construct', f'EXC:{type(e).__name__}', {'code': label}, tag='construct-fail')
             continue
         add_code_streams(s_asm, s_conv, s_css, label, code, rng, cls)
-    s_user_a, s_user_c, s_user_s = Stream('user-assembly-H'), Stream('user-to_bsf-from_bsf'), Stream('user-css')
+    s_user_a, s_user_c, s_user_s = Stream('user-assembly-H'), Stream('user-to_bsf-from_bsf', post=sort_op_string), Stream('user-css')
     for i in range(120 if ctx.thorough else 40):
         code, desc = make_user_code(rng)
         add_code_streams(s_user_a, s_user_c, s_user_s, f'user#{i}:{json.dumps(desc)}', code, rng, 'user')
@@ -270,6 +295,9 @@ def check_code(code, label, rng, library=True):
             op = code.from_bsf(np.array(v))
             if [int(x) for x in code.to_bsf(op)] != v:
                 return f'to_bsf(from_bsf(v)) != v for v={vec(v)}'
+            op2 = code.from_bsf(shuffled_csr(v, rng))
+            if dict(op2) != dict(op):
+                return f'from_bsf of a sparse row (unsorted column indices) differs from from_bsf of the dense vector v={vec(v)}'
         if H:
             Ha = np.array(H)
             xr = [any(r[:n]) for r in H]
